@@ -5,6 +5,8 @@ from props import genc_common
 def want(key, tag, f):
     if key == 'T':
         return tag == 'C04'
+    if key == 'P':
+        return False   # Promela copy of the tables: C05
     if key in ('A', 'G'):
         return True
     return tag != 'C02'   # part B: everything except the C02 legality assertions
